@@ -1865,7 +1865,7 @@ func CantRemove(mach am.Api, states am.S, args am.A) bool {
 	mach.CanRemove(states, am.PassMerge(args, am.Pass(args2)))
 	<-args2.CheckDone
 
-	return args2.Canceled
+	return !args2.Canceled
 }
 
 // CantRemove1 is a single-state version of [CantRemove].
